@@ -10,6 +10,7 @@ import ast
 
 from ..lattice import bv_family, class_test, reaching_classes
 from ..model import call_name, dotted, own_nodes, unparse
+from ..model import returns_text
 from ..pathcond import conds_truth, path_info
 from ..paths import enumerate_paths
 from ._serial import BASE, DEC, ENC, ENCBASE, PYTYPES, SER, VAL, is_validation_error
@@ -202,8 +203,7 @@ def run(pm, ctx):
                       msg='int(value) is applied to non-bool values',
                       key='C04-R2|%s|bool' % ep.qualname)
     sf = pm.func(SER + '._strftime')
-    ctx.check('C04-R2', len(sf.node.body) == 1 and unparse(sf.node.body[0]) ==
-              'return dt.strftime(fmt)', '_strftime is dt.strftime(fmt)', sf.loc,
+    ctx.check('C04-R2', returns_text(sf.node) == 'dt.strftime(fmt)', '_strftime is dt.strftime(fmt)', sf.loc,
               msg='_strftime no longer formats with the given format', key='C04-R2|_strftime')
 
     # ---------------- R3
@@ -339,7 +339,7 @@ def run(pm, ctx):
                   msg='%s no longer maps exactly null to None' % f.short,
                   key='C04-R3|%s|null' % f.qualname)
     ng = pm.func(VAL + '.Nullable.get_default')
-    ctx.check('C04-R3', len(ng.node.body) == 1 and unparse(ng.node.body[0]) == 'return None',
+    ctx.check('C04-R3', returns_text(ng.node) == 'None',
               'Nullable.get_default is None (an absent nullable field decodes as unset)', ng.loc,
               msg='Nullable.get_default no longer returns None: absent nullable fields decode to '
                   'a value the encoder never omitted', key='C04-R3|%s|default' % ng.qualname)
@@ -414,8 +414,8 @@ def run(pm, ctx):
     je, jd = pm.func(SER + '.json_encode'), pm.func(SER + '.json_decode')
     jce, jcd = pm.func(SER + '.json_compat_obj_encode'), pm.func(SER + '.json_compat_obj_decode')
     sj = pm.func(SER + '.StoneToJsonSerializer.encode')
-    ctx.check('C04-R5', len(sj.node.body) == 1 and unparse(sj.node.body[0]) ==
-              'return json.dumps(super().encode(validator, value))',
+    ctx.check('C04-R5', returns_text(sj.node) ==
+              'json.dumps(super().encode(validator, value))',
               'StoneToJsonSerializer.encode = json.dumps(primitive encoding)', sj.loc,
               msg='json encoding is no longer json.dumps of the primitive encoding',
               key='C04-R5|%s' % sj.qualname)
